@@ -135,8 +135,11 @@ def spaces(tier):
     def genw():
         n = 3
         anchors = anchors_for(n)
-        for where in ("view", "transform", "view_and_transform_same", "view_and_transform_permuted"):
+        for where in ("view", "transform", "view_and_transform_same", "view_and_transform_permuted",
+                      "view_and_transform_drop0", "view_and_transform_drop1"):
             for idless in (False, True):
+                if idless and "drop" in where:
+                    continue      # which definition an id-less analysis insertion continues is undefined
                 for il in itertools.product(anchors, repeat=2):
                     for ex in (None, [3, 1]):
                         for perm in (0, 1):      # category ids ascending / not ascending in the payload
@@ -242,6 +245,10 @@ def _run_cat(n, anchors, explicit, hidden, where="transform", idless=False, dim=
         view_ins, t_ins = ins, [dict(i) for i in ins]
     elif where == "view_and_transform_permuted":
         view_ins, t_ins = ins, [dict(i) for i in reversed(ins)]
+    elif where.startswith("view_and_transform_drop"):
+        # the analysis keeps a subset of the variable's insertions
+        d = int(where[-1])
+        view_ins, t_ins = ins, [dict(i) for k, i in enumerate(ins) if k != d]
     R = S.cat("r", n, "mid", ids=ids)
     R = CatVar(R.alias, R.cats, view_insertions=view_ins)
     C = S.cat("c", 2, "last")
@@ -277,6 +284,15 @@ def _run_cat(n, anchors, explicit, hidden, where="transform", idless=False, dim=
     if prune and dim == "rows":
         hid |= [set(), {1}, {0, 2}, {0, 1, 2}][data_variant] if n == 3 else set()
     exp = spec_order(ids, explicit, eff_anchors, hid)
+    # payload_order lists the VARIABLE's insertions (those the analysis still references) in the variable's
+    # definition order when the variable defines any, else the analysis insertions
+    if view_ins is not None and t_ins is not None and not idless:
+        keep = {i["id"] for i in t_ins}
+        plist = [i for i in view_ins if i["id"] in keep]
+    else:
+        plist = eff or []
+    part_payload_spec = (spec_order(ids, None, [i["anchor"] for i in plist], hid),
+                         [i.get("id") for i in plist])
     # subtotals are pruned only when every opposing vector is empty: not the case here
     if idless:
         if t_ins is not None:
@@ -285,7 +301,11 @@ def _run_cat(n, anchors, explicit, hidden, where="transform", idless=False, dim=
             sub_ids = payload_rank_ids(ids, eff_anchors)
     else:
         sub_ids = {k: eff[k]["id"] for k in range(len(eff or []))}
+    PAYLOAD_SPEC[id(part)] = (part, part_payload_spec, idless and view_ins is not None and t_ins is not None)
     return part, exp, sub_ids, eff, dim
+
+
+PAYLOAD_SPEC = {}
 
 
 def _compare(part, exp, sub_ids, eff, dim, V, tag=""):
@@ -311,6 +331,17 @@ def _compare(part, exp, sub_ids, eff, dim, V, tag=""):
                       "(signed %r)" % (obs_b, bogus, obs_s)))
     if len(labels) != len(obs_s):
         V.append(viol("order:labels_extent" + tag, "labels %r vs order %r" % (labels, obs_s)))
+    # payload_order: the same vectors in PAYLOAD order (an explicit order plays no part), subtotals at their
+    # anchors and named by insertion id, hidden and pruned elements left out
+    _p, pspec, ambiguous = PAYLOAD_SPEC.pop(id(part), (None, None, True))
+    if pspec is not None and dim != "columns" and not ambiguous and hasattr(part, "payload_order"):
+        asserted += 1
+        pord, pids = pspec
+        pids = [sub_ids[k] if i is None else i for k, i in enumerate(pids)]
+        want = [e[1] if e[0] == "e" else "ins_%s" % pids[e[1]] for e in pord]
+        got = [int(x) if not str(x).startswith("ins_") else str(x) for x in part.payload_order]
+        if got != want:
+            V.append(viol("payload_order" + tag, "payload_order %r, payload-order specification gives %r" % (got, want)))
     return asserted, signed
 
 
